@@ -164,6 +164,13 @@ Record env := {
                                         0 account / not found, 1 EVM contract, 2 other native actor *)
 }.
 
+(* an environment with trivial oracles, for examples (new oracle fields get their default here, so that
+   users of the model do not have to spell the record out) *)
+Definition default_env (code calldata : list Z) : env :=
+  {| e_code := code; e_calldata := calldata; e_readonly := false; e_keccak := fun _ => 0;
+     e_ctx := fun _ => 0; e_keyed := fun _ _ => 0; e_extcode := fun _ => []; e_canon := fun a => a;
+     e_acct_kind := fun _ => 0 |}.
+
 Inductive outcome := Return (data : list Z) | Revert (data : list Z) | Failure (code : Z).
 
 (* what an instruction's implementation function yields *)
